@@ -324,17 +324,33 @@ func (m *machine) remoteWrite(t *rapid.T) {
 		q.Cap.Drain()
 	}
 	before := world.JSON(m.w.Servers[si].F.DataCopy(f.Fn))
-	d := p.Msg(model.CmdClassifierTypeWrite, p.FA(client.Ent, client.Feat), m.w.Servers[si].F.Address(), true, nil, listgen.Cmd(f, u))
+	// the acknowledgement is optional: requested, declined explicitly or not mentioned
+	ackMode := rapid.SampledFrom([]string{"true", "true", "false", "absent"}).Draw(t, "ackRequest")
+	d := p.Msg(model.CmdClassifierTypeWrite, p.FA(client.Ent, client.Feat), m.w.Servers[si].F.Address(), ackMode == "true", nil, listgen.Cmd(f, u))
+	if ackMode == "false" {
+		no := false
+		d.Header.AckRequest = &no
+	}
 	p.Send(d)
 	m.w.Sync()
 	m.w.Events.Drain()
-	// accepted = the writer got a success result (observed, not predicted: C03/C04 own the gate)
-	accepted := false
+	// accepted = the writer got a success result, resp. without acknowledgement no error result
+	// (observed, not predicted: C03/C04 own the gate, C01 the shape of the response)
+	success, refused := false, false
 	for _, s := range p.Cap.All() {
-		if s.Classifier() == model.CmdClassifierTypeResult && s.Ref() != nil && *s.Ref() == *d.Header.MsgCounter && s.ErrorNumber() == 0 {
-			accepted = true
+		if s.Classifier() == model.CmdClassifierTypeResult && s.Ref() != nil && *s.Ref() == *d.Header.MsgCounter {
+			if s.ErrorNumber() == 0 {
+				success = true
+			} else {
+				refused = true
+			}
 		}
 	}
+	accepted := success
+	if ackMode != "true" {
+		accepted = !refused
+	}
+	world.Label("write/ackRequest-" + ackMode)
 	after := world.JSON(m.w.Servers[si].F.DataCopy(f.Fn))
 	m.logf("remote write by peer%d %s to server %d %s => accepted=%v", k.Peer+1, client, si, f.Fn, accepted)
 	if accepted {
